@@ -32,6 +32,7 @@ type descriptor struct {
 	Kind     []string `json:"kind"`     // per condition: "var" | "cmp" | "compound" | "informal" | "dataobject"
 	DeclSeed int      `json:"declSeed"` // declaration order permutation
 	Burst    bool     `json:"burst"`    // answer the upstream tasks concurrently
+	Funnel   bool     `json:"funnel"`   // the tokens first merge in another exclusive gateway and reach the gateway under test over ONE incoming flow
 }
 
 type built struct {
@@ -60,11 +61,16 @@ func build(d descriptor) *built {
 	} else {
 		fork := b.Add(gen.KPar)
 		b.Connect(st, fork)
+		into := g
+		if d.Funnel {
+			into = b.Add(gen.KXor)
+			b.Connect(into, g)
+		}
 		for i := 0; i < d.Tokens; i++ {
 			up := b.Add(gen.KTask)
 			bt.Up = append(bt.Up, up.ID)
 			b.Connect(fork, up)
-			b.Connect(up, g)
+			b.Connect(up, into)
 		}
 	}
 	total := d.NC
@@ -386,20 +392,28 @@ func TestC04Table(t *testing.T) {
 				}
 				for tokens := 1; tokens <= 3; tokens++ {
 					for _, lang := range []string{"expr", "xpath"} {
-						d := descriptor{NC: nc, DefPos: defPos, Truth: truth, Tokens: tokens, Lang: lang, Burst: tokens > 1}
-						r := check(t, "TestC04Table", d)
-						total++
-						if nontrivial(d) {
-							nt++
-							if len(samples) < 6 && total%97 == 0 {
-								samples = append(samples, map[string]any{"case": d, "steps": r.Steps})
+						for _, funnel := range []bool{false, true} {
+							if funnel && tokens == 1 {
+								continue
 							}
-						}
-						classes[fmt.Sprintf("nc=%d", nc)]++
-						classes["lang="+lang]++
-						classes[fmt.Sprintf("tokens=%d", tokens)]++
-						if defPos < 0 && mask == 0 {
-							classes["no-route"]++
+							d := descriptor{NC: nc, DefPos: defPos, Truth: truth, Tokens: tokens, Lang: lang, Burst: tokens > 1, Funnel: funnel}
+							r := check(t, "TestC04Table", d)
+							total++
+							if nontrivial(d) {
+								nt++
+								if len(samples) < 6 && total%97 == 0 {
+									samples = append(samples, map[string]any{"case": d, "steps": r.Steps})
+								}
+							}
+							classes[fmt.Sprintf("nc=%d", nc)]++
+							classes["lang="+lang]++
+							classes[fmt.Sprintf("tokens=%d", tokens)]++
+							if defPos < 0 && mask == 0 {
+								classes["no-route"]++
+							}
+							if funnel {
+								classes["funnel"]++
+							}
 						}
 					}
 				}
@@ -428,7 +442,7 @@ func TestC04Random(t *testing.T) {
 		nc := rapid.IntRange(1, 4).Draw(rt, "nc")
 		d := descriptor{NC: nc, DefPos: rapid.IntRange(-1, nc).Draw(rt, "defPos"), Tokens: rapid.IntRange(1, 3).Draw(rt, "tokens"),
 			Lang: rapid.SampledFrom([]string{"expr", "xpath"}).Draw(rt, "lang"), DeclSeed: rapid.IntRange(0, 500).Draw(rt, "declSeed"),
-			Burst: rapid.Bool().Draw(rt, "burst")}
+			Burst: rapid.Bool().Draw(rt, "burst"), Funnel: rapid.Bool().Draw(rt, "funnel")}
 		kinds := []string{"var", "cmp", "compound", "informal"}
 		if d.Lang == "expr" {
 			// (the repository's own XPath getDataObject test is skipped as "doesn't quite work yet")
